@@ -158,8 +158,11 @@ def gen_source(rng):
             return rng.choice([d.isoformat(sep=" "), d.isoformat() + "+00:00", d.strftime("%Y-%m-%d %H:%M:%S.%f")])
         return d.strftime("%Y/%m/%d")
     if r < 0.62:
-        return rng.choice([b"abc", b"\xff", b"a\xffb", "é".encode(), b"\xc3", b"1", b"true", bytearray(b"\xfe1"), memoryview(b"ok"),
-                           b"12\xff", b"", "日本".encode()])
+        raw = rng.choice([b"abc", b"\xff", b"a\xffb", "é".encode(), b"\xc3", b"1", b"true", b"\xfe1", b"ok",
+                          b"12\xff", b"", "日本".encode(),
+                          # text cut inside a multi-byte character (an incremental decoder would wait for more instead of failing)
+                          b"12\xe2\x82", "日本".encode()[:-1], b"caf\xc3", b"1\xf0\x9f\x98"])
+        return rng.choice([bytes, bytes, bytearray, memoryview])(raw)
     if r < 0.7:
         w = rng.choice(["true", "false", "yes", "no", "on", "off", "t", "f", "y", "n", "1", "0", "2", "maybe", "", "null", "none"])
         w = rng.choice([w, w.upper(), w.title(), " " + w])
